@@ -313,6 +313,7 @@ func ruleC07Extra(prog *Program, rep *Report) {
 	ruleRestore(prog, rep)
 	ruleReturnAlias(prog, rep, "C07")
 	ruleBorrowedWrites(prog, rep)
+	ruleCursorAdvance(prog, rep) // the Reuse option recycles maps through a cursor
 }
 
 // ruleRestore: a field saved to a local, overwritten and restored later must
